@@ -334,7 +334,7 @@ def run(ctx):
     gen_tie = base.source_order_tie(ctx)
     proofs_ok = ctx.standard_proof_stage("C11", extra_targets=["Model/FsShow.vo"])
     scs = scenarios()
-    budget = 45 if quick else 400
+    budget = 36 if quick else 400
     with cf.ThreadPoolExecutor(len(scs)) as ex:
         preps = list(ex.map(lambda n: prepare(env, n, scs[n]), list(scs)))
     jobs = []
@@ -343,8 +343,8 @@ def run(ctx):
             jobs.append((prep, sched))
         if prep["name"] == "call_clear":
             # the window of F14: the clearer is inside rmtree(func_dir), the caller between exists() and open()
-            for b in range(9, 19 if quick else 30):
-                for a in range(4, 9 if quick else 14):
+            for b in range(10, 17 if quick else 30):
+                for a in range(4, 8 if quick else 14):
                     jobs.append((prep, [1] * b + [0] * a + [1] * BIG + [0] * BIG))
     # the schedule of the Coq witness C11_no_raise_refuted, replayed on the implementation
     wprep = prepare(env, "f14_witness", ([S(1, [C(1), C(2)])], [S(1, [C(1)]), S(1, [{"a": "clear"}])]))
